@@ -262,6 +262,7 @@ func (p *Prog) closureWithCall(parent *ssa.Function, pred func(string) bool) *ss
 
 func checkC02OpenSent(c *Check) {
 	p := c.P
+	c.cleanupContract("C02.5 refusal-closes-connection")
 	outer := p.Fn("fsm.openSent")
 	if outer == nil {
 		return
